@@ -223,6 +223,7 @@ class Check:
     quick_n = 300
     thorough_n = 5000
     search_factor = 10
+    workers = 1           # >1: run_impl is mapped over a fork pool (cases/observations must pickle; adapter must be stateless)
     trusted_base = []
     assumptions = []
     rule = ""
@@ -291,6 +292,16 @@ def _safe_impl(check, case):
         return None, "".join(traceback.format_exception_only(type(ex), ex)).strip()
 
 
+_POOL_CHECK = None
+
+
+def _pool_impl(case):
+    try:
+        return _safe_impl(_POOL_CHECK, case)
+    except Infra as ex:
+        return None, f"Infra: {ex}"
+
+
 def _shrink(check, case, bad):
     """greedy delta debugging: `bad(case)` true -> keep"""
     cur = case
@@ -355,8 +366,15 @@ def run(check, tier, seed, replay=None):
     disagreements = [] # (case, impl_view, model_view)
     crashes = []
     observations = []
-    for case in cases:
-        obs, err = _safe_impl(check, case)
+    if check.workers > 1 and len(cases) > 50:
+        import multiprocessing
+        global _POOL_CHECK
+        _POOL_CHECK = check
+        with multiprocessing.get_context("fork").Pool(check.workers) as pool:
+            results = pool.map(_pool_impl, cases, chunksize=max(1, len(cases) // (check.workers * 8)))
+    else:
+        results = [_safe_impl(check, case) for case in cases]
+    for case, (obs, err) in zip(cases, results):
         if err is not None:
             crashes.append((case, err))
             observations.append(None)
